@@ -339,6 +339,14 @@ func TestC11(t *testing.T) {
 				}
 			},
 		}
+		if c.Weighted("c11.ecoWorld", 2, 1) == 1 {
+			// a sentinel, a third-party pillar with its own reward address and a stake exist from early on
+			c.Class("ecosystem-world")
+			if _, err := sim.EcosystemScript(h); err != nil {
+				c.Note("ecosystem script stopped: %v", err)
+			}
+			inv()
+		}
 		c.Repeat(acts, inv)
 		for i := 0; i < 7 && !h.Dead; i++ {
 			h.Produce(0)
